@@ -1,5 +1,5 @@
 #!/usr/bin/env python3
-"""Write seeded<k>/<id>/meta.json for batches 5-8 from what is on disk: the patch (files touched), my
+"""Write seeded<k>/<id>/meta.json for batches 5-10 from what is on disk: the patch (files touched), my
 confirmation log (suite with the change, demo with / without), the output of the check against it."""
 import json, os, re, sys
 ROOT = os.path.dirname(os.path.dirname(os.path.abspath(__file__)))
@@ -26,6 +26,20 @@ CHANGE = {
  ('seeded7','C17'): ("Debt::pay_all skips nodes no thread owns (Node::is_owned)", "a projection guard that outlives its loading thread's ownership of the node, then a store"),
  ('seeded7','C19'): ("unsafe impl Sync for ArcSwapAny<T, S> with bounds on T::Base instead of T", "a container of Rc / rc::Weak with a thread-safe pointee shared by reference between threads"),
  ('seeded7','C20'): ("#[derive(Default)] for LocalNode replacing the three struct literals (the TLS-destroyed path loses its node)", "serialization / deserialization from a thread-local destructor after the crate's thread-local is gone"),
+ ('seeded9','C02'): ("Slots::help loads their_space and my_space before it produces the replacement (a full load on the same thread, which can itself be helped: the envelope read earlier is then stale)", "writers holding 8+ guards (their helping load takes the fallback) helped by another writer while helping a reader: two nodes come to share one envelope"),
+ ('seeded9','C05'): ("HybridStrategy::compare_and_swap takes the raw address out of `current` before the loop and drops it (a Guard given by value no longer keeps the compared object alive during the call)", "compare_and_swap with a Guard by value under contention: the object is freed and its address reused between the drop and the exchange"),
+ ('seeded9','C07'): ("Debt::pay_all: a Relaxed load of the slot before Debt::pay, skipping the compare-exchange when the slot does not hold the pointer", "a reader that has already given its borrowed guard back: the writer no longer acquires the reader's release, so the destruction is not ordered after the reader's accesses (Miri; the vector-clock detector)"),
+ ('seeded9','C11'): ("check_cooldown leaves a node in the CHECKING state when a writer is inside (no way back to COOLDOWN)", "a starting thread inspects a given-up node while a writer holds a reservation on it: the node is lost, the list grows with the number of threads ever created"),
+ ('seeded9','C12'): ("helping::get_debt publishes the generation (control.swap) before it records the address (active_addr.store)", "a thread on the fallback path reading container A right after container B, a writer of B in between the two steps: A.load() is handed B's value"),
+ ('seeded9','C13'): ("`let _ = node.reserve_writer()` in pay_all: the reservation is dropped at once", "a writer stalled inside help while the reader's transaction counter wraps and comes round to the same generation on the same node"),
+ ('seeded9','C16'): ("impl Access for Cache: `self.cached.deref()` instead of `self.load().deref()` (no revalidation through the trait)", "a Cache used through the cache::Access trait after a store"),
+ ('seeded9','C17'): ("Node::get sets `node.next = head` once before the prepend loop: a failed compare-exchange retries with a stale next, dropping a concurrently inserted node from the list", "two threads whose first operations collide: the guards (plain, Map, DynGuard) of the thread whose node was lost protect nothing"),
+ ('seeded10','C01'): ("Node::get resets the fast slots of a node it claims", "a guard moved out of its loading thread, the thread exits, a later thread claims its node: the next write destroys the value under the guard"),
+ ('seeded10','C03'): ("Slots::help loads the two space offers before producing the replacement (same as 9/C02, found independently)", "at least two writers and threads holding 8+ guards: a load returns a value of another container"),
+ ('seeded10','C09'): ("Slots::help: with the reader on another storage address it re-reads the control and `continue`s instead of leaving when the control is unchanged", "a reader suspended inside its fallback window on container x while a writer of another container y walks past its node: the writer never finishes"),
+ ('seeded10','C15'): ("RefCnt::into_ptr for Weak / rc::Weak reuses `Self::as_ptr` (the inherent Weak::as_ptr): Weak::new() converts to std's sentinel, not to null", "a dangling Weak::new(): as_ptr and into_ptr disagree; compare_and_swap / rcu on an empty ArcSwapWeak never return"),
+ ('seeded10','C19'): ("unsafe impl Sync for Guard<T, S> where T::Base: Sync (the bound belongs on the pointer T)", "Guard<Rc<U>> or Guard<Arc<U>> with U: Sync + !Send shared by reference between threads"),
+ ('seeded10','C20'): ("Serialize for ArcSwapAny reads the raw pointer (Acquire) and serializes through ManuallyDrop without a guard", "a store into the container while it is being serialized (from another thread or from the pointee's own Serialize)"),
  ('seeded8','C01'): ("HybridProtection::into_inner pays the debt back first and takes its own reference only if that succeeded (was: increment, then pay, decrement if already paid)", "a writer whose walk passes the just-emptied slot and drops the last reference before the reader's increment (load_full / Guard::into_inner racing with a store)"),
  ('seeded8','C03'): ("Slots::help keeps the replacement it loaded when its offer fails and offers the same (possibly stale) value on the next round", "two writers and a reader on the fallback path: the reader finishes one load and starts the next between the helper's load and its second offer"),
  ('seeded8','C04'): ("hybrid compare_and_swap without the retry loop: a failed (strong) exchange is answered by a fresh load, not compared with `current`", "the same pointer comes back into the container (A, B, A) between the failed exchange and the fresh load"),
@@ -52,7 +66,7 @@ def main():
         out = open(os.path.join(dd, 'check_output.txt')).read().splitlines() if os.path.exists(os.path.join(dd, 'check_output.txt')) else []
         viol = next((l for l in out if l.startswith('VIOLATION')), '')
         meta = {
-          'property': pid, 'batch': int(d[-1]), 'change': change, 'needs_to_manifest': needs, 'files': files,
+          'property': pid, 'batch': int(d[len('seeded'):]), 'change': change, 'needs_to_manifest': needs, 'files': files,
           'source': 'independent sub-agent given only the property text and a scratch worktree',
           'applies_as': 'patch.rebased.diff (same change on the current HEAD; the original no longer applies after a later hook/fix commit)' if os.path.exists(os.path.join(dd, 'patch.rebased.diff')) else 'patch.diff',
           'confirmed_by_me': {
